@@ -155,8 +155,51 @@ def coqc_case(path):
     return path, rc, out
 
 
+def run_race(pid, fam, tier, seed, outdir):
+    """C08: the shared-schema stress under the Go race detector (validates the ownership model; not the proof)."""
+    shutil.rmtree(outdir, ignore_errors=True)
+    os.makedirs(outdir, exist_ok=True)
+    r = dict(name=fam["name"], n=0, results={}, errors=[], meta={}, outdir=outdir, details={})
+    with Lock("go"):
+        rc, out = sh(["go", "build", "-race", "-o", "bin/zograce", "./race"], cwd=HARN, timeout=900, env=GOENV)
+    if rc != 0:
+        r["errors"].append("race build failed: " + out[-1500:])
+        return r
+    workers, iters, schemas = (16, 1500, 60) if tier == "thorough" else (16, 250, 24)
+    resf = os.path.join(outdir, "race.json")
+    errf = os.path.join(outdir, "race.stderr")
+    env = dict(GOENV, GORACE="halt_on_error=0")
+    with open(errf, "w") as ef:
+        p = subprocess.run([os.path.join(HARN, "bin", "zograce"), "-seed", str(seed), "-workers", str(workers), "-iters", str(iters),
+                            "-schemas", str(schemas), "-out", resf], cwd=HARN, env=env, stdout=subprocess.DEVNULL, stderr=ef, timeout=1500)
+    err = open(errf, errors="replace").read()
+    races = err.count("WARNING: DATA RACE")
+    try:
+        res = json.load(open(resf))
+    except Exception as e:  # noqa
+        r["errors"].append("race harness produced no result (exit %s): %s" % (p.returncode, err[-1500:]))
+        return r
+    tags = []
+    if races:
+        tags.append("data_race")
+    if res.get("wrong_results", 0):
+        tags.append("concurrent_result")
+    if "fatal error" in err or p.returncode not in (0, 66):
+        tags.append("data_race")
+    if tags:
+        r["results"][0] = ("fail", sorted(set(tags)))
+        r["details"][0] = ("%d race report(s); %d of %d concurrent calls returned a result different from the same call alone\n" % (races, res.get("wrong_results", 0), res.get("calls", 0))
+                           + str(res.get("first_wrong", "")) + "\n" + err[:6000])
+    r["meta"] = dict(cases=res.get("calls", 0), distinct_nontrivial=len(set(res.get("shapes", []))), family="race", workers=workers, iterations=iters,
+                     shared_schemas=res.get("schemas"), race_reports=races, wrong_results=res.get("wrong_results", 0),
+                     samples=["shared schema shapes: " + " ".join(res.get("shapes", [])[:8])])
+    return r
+
+
 def run_family(pid, fam, tier, seed, ids=None, outdir=None):
     """Runs one correspondence family: implementation side (Go), then the model side (coqc)."""
+    if fam["family"] == "race":
+        return run_race(pid, fam, tier, seed, outdir or os.path.join(WORK, pid, fam["name"]))
     n = fam["thorough"] if tier == "thorough" else fam["quick"]
     outdir = outdir or os.path.join(WORK, pid, fam["name"])
     shutil.rmtree(outdir, ignore_errors=True)
@@ -220,6 +263,11 @@ def extract_case(outdir, cid):
 def write_replay(pid, fam, seed, tier, cid, tags, detail=""):
     os.makedirs(os.path.join(WORK, pid), exist_ok=True)
     path = os.path.join(WORK, pid, "replay_%s_%s.json" % (fam["name"], cid))
+    if fam["family"] == "race":
+        rep = dict(property=pid, family="race", seed=seed, tier=tier, failed_projections=tags, detail=detail,
+                   rerun="cd /verif/harness && go build -race -o bin/zograce ./race && ./bin/zograce -seed %d" % seed)
+        json.dump(rep, open(path, "w"), indent=1)
+        return path
     rep = dict(property=pid, family=fam["family"], family_name=fam["name"], profile=fam.get("profile", "default"), seed=seed, tier=tier,
                n=fam["thorough"] if tier == "thorough" else fam["quick"], case_id=cid, failed_projections=tags, detail=detail,
                rerun="./check %s --replay %s" % (pid, path))
@@ -295,7 +343,7 @@ def decide(pid, tier, seed):
     tier_eff = tier
     judge = {"engine": "EngineCheck", "fe": "EngineCheck", "modes": "EngineCheck", "builder": "EngineCheck", "purity": "EngineCheck",
              "preds": "SatCheck", "numeric": "SatCheck", "http": "SatCheck", "helpers": "SatCheck2", "messages": "SatCheck3",
-             "pools": "EngineCheck", "dyn": "SatCheck4"}
+             "pools": "EngineCheck", "dyn": "SatCheck4", "history": "EngineCheck", "race": "EngineCheck"}
     if okh:
         for fam in cfg["families"]:
             if not os.path.exists(os.path.join(COQ, "Corr", judge.get(fam["family"], "EngineCheck") + ".vo")):
